@@ -49,6 +49,15 @@ def gen_case(rng):
     dataset = rng.random() < 0.3
     gen = Q.Gen(rng, dataset=dataset, rich=rng.random() < 0.4)
     where = gen.group()
+    if rng.random() < 0.04:
+        # a sliced sub-select joined with a pattern that shares its projected variable: the slice is taken once, not per joined row
+        V = lambda n_: ["var", n_]
+        sub = dict(where=["group", [["bgp", [[V("x"), Q.C(rng.choice(Q.PREDS)), V("v1")]]]]], proj=["x"], distinct=rng.random() < 0.3, orderby=[[V("x"), rng.random() < 0.3]])
+        if rng.random() < 0.7: sub["offset"] = rng.choice([1, 1, 2])
+        if rng.random() < 0.5 or "offset" not in sub: sub["limit"] = rng.choice([1, 2])
+        els = [["bgp", [[V("x"), Q.C(rng.choice(Q.PREDS)), V("y")]]], ["subselect", sub]]
+        if rng.random() < 0.4: els.reverse()
+        where = ["group", els]
     form = rng.choice(["select", "select", "select", "ask", "construct"])
     case = dict(kind="q", form=form, where=where, data=gen_data(rng, dataset), dataset=dataset)
     if form == "construct":
